@@ -37,6 +37,12 @@ MUTATORS = {'append', 'extend', 'insert', 'remove', 'pop', 'clear', 'sort', 'rev
 IGNORED_CALLS = {'print', 'dprint'}
 
 
+def _is_exception_name(nm: str) -> bool:
+    import builtins
+    c = getattr(builtins, nm, None)
+    return isinstance(c, type) and issubclass(c, BaseException)
+
+
 class Effect:
     __slots__ = ('kind', 'target', 'value', 'args', 'kwargs', 'sym', 'lineno', 'epoch', 'region', 'extra')
 
@@ -179,7 +185,7 @@ class Executor:
     def __init__(self, repo: Repo, ctx_cls: Optional[ClassInfo], func: FuncInfo, opts: Optional[Options] = None):
         self.repo = repo
         self.ctx = ctx_cls
-        self.func = func
+        self.func = func.normalized()
         self.opts = opts or Options()
         self.volatile = self._volatile_fields()
         self.call_stack: List[FuncInfo] = []
@@ -199,10 +205,17 @@ class Executor:
             self._ordinals[k] = v
         return self._ordinals[k]
 
-    def ordinal(self, fctx: FuncInfo, node) -> str:
-        """stable name of a loop / handler: <function>.<pre-order index among the
-        loops and handlers of that function> (no line numbers: a reference
-        function and the code get the same names when their structure agrees)"""
+    def ordinal(self, fctx: FuncInfo, node, st: Optional['State'] = None) -> str:
+        """stable name of a loop / handler.  With a state: its position in the order in which the loops and
+        handlers are first met along this path - no line numbers, and no function names either, so that a
+        reference function and the code get the same names when their structure agrees *also when part of the
+        code sits in an extracted helper*.  (Without a state: <function>.<pre-order index>, the old scheme.)"""
+        if st is not None:
+            seq = st.counters.get('@ordseq', ())
+            if id(node) not in seq:
+                seq = seq + (id(node),)
+                st.counters['@ordseq'] = seq
+            return str(seq.index(id(node)) + 1)
         k = id(node)
         if k not in self._ordinals:
             idx = 0
@@ -368,7 +381,10 @@ class Executor:
                 return [(st, ('raise', tname, ln))]
             outs = []
             for s2, v, ex in self.ev(e, st, fctx):
-                outs.append((s2, ex or ('raise', term(v), ln)))
+                if not ex and isinstance(v, ast.Call) and isinstance(v.func, ast.Name) and _is_exception_name(v.func.id):
+                    outs.append((s2, ('raise', v.func.id, ln)))     # built by a helper: same exit as raise E(...)
+                else:
+                    outs.append((s2, ex or ('raise', term(v), ln)))
             return outs
         if isinstance(s, ast.Assert):
             if self.opts.split_asserts:
@@ -575,7 +591,7 @@ class Executor:
         if red is not None:
             return red
         ln = s.lineno
-        oid = self.ordinal(fctx, s)
+        oid = self.ordinal(fctx, s, st)
         body_writes = block_writes(s.body + getattr(s, 'orelse', []))
         has_yield = any(isinstance(n, (ast.Yield, ast.YieldFrom)) for b in s.body for n in [b] + list(walk_local(b)))
         has_break = _has_break(s.body)
@@ -616,7 +632,7 @@ class Executor:
                 starts.append(s2)
             target = None
         else:
-            header = term(pre_iter)
+            header = term(terms.iter_canon(pre_iter))
             tgt = s.target
             tstr = ast.unparse(tgt)
             self.assign(tgt, None, iter_state, fctx, ln, loopvar='@it%s' % oid)
@@ -709,9 +725,11 @@ class Executor:
         # whether an exception reaches a handler is a nondeterministic choice, not a
         # condition of the state: give each alternative its own mode bit so that a
         # handler path and the normal path are never taken for the same region
+        for h in s.handlers:
+            self.ordinal(fctx, h, st)          # number the handlers before the alternatives fork
         st0 = st.fork()
         for h in s.handlers:
-            st0.lits.append((('bit', '@raised:%s' % self.ordinal(fctx, h)), False, h.lineno))
+            st0.lits.append((('bit', '@raised:%s' % self.ordinal(fctx, h, st0)), False, h.lineno))
         normal = self.exec_block(s.body, st0, fctx)
         handled_types = []
         for h in s.handlers:
@@ -741,17 +759,17 @@ class Executor:
         # implicit exceptions raised by calls inside the body
         for h in s.handlers:
             hs = st.fork()
-            self._havoc(hs, s.body, fctx, 'T' + self.ordinal(fctx, h))
+            self._havoc(hs, s.body, fctx, 'T' + self.ordinal(fctx, h, hs))
             # effects of the try body up to the exception are unknown: mark
             tn = ('|'.join(term(e) for e in h.type.elts) if isinstance(h.type, ast.Tuple) else term(h.type)) if h.type else '*'
             hs.effects.append(Effect('except', target=tn, lineno=h.lineno, epoch=hs.epoch, extra='implicit'))
             for h2 in s.handlers:
-                hs.lits.append((('bit', '@raised:%s' % self.ordinal(fctx, h2)), h2 is h, h.lineno))
+                hs.lits.append((('bit', '@raised:%s' % self.ordinal(fctx, h2, hs)), h2 is h, h.lineno))
             if any(isinstance(n, (ast.Yield, ast.YieldFrom)) for b in s.body for n in [b] + list(walk_local(b))):
                 hs.epoch += 1
                 self._flush_volatile(hs)
             if h.name:
-                hs.locals[h.name] = name('@exc%s' % self.ordinal(fctx, h))
+                hs.locals[h.name] = name('@exc%s' % self.ordinal(fctx, h, hs))
             outs.extend(self.exec_block(h.body, hs, fctx))
         if s.finalbody:
             res = []
@@ -1274,6 +1292,9 @@ class _Ev:
             r = x.repo.resolve_name(self.fctx.module, fname)
             if r and r[0] == 'ext':
                 fname = r[1]
+            if _is_exception_name(fname) and fname not in st.locals:
+                # constructing an exception object has no effect; its arguments are messages
+                return [(st, ast.Call(func=name(fname), args=[], keywords=[]), None)]
             if fname in PURE_FUNCS or fname in x.opts.pure_calls:
                 return [(st, ast.Call(func=name(fname), args=args,
                                       keywords=[ast.keyword(arg=k, value=v) for k, v in kwargs]), None)]
@@ -1297,7 +1318,7 @@ class _Ev:
                     # e.g. list.append / object.__init__
                     return self.effect_call('super().' + meth, ast.Attribute(value=recv, attr=meth, ctx=ast.Load()),
                                             args, kwargs, st, ln)
-                if len(x.call_stack) < x.opts.inline_depth and target not in x.call_stack and not target.is_generator() \
+                if len(x.call_stack) < x.opts.inline_depth and target.normalized() not in x.call_stack and not target.is_generator() \
                         and meth not in x.opts.no_inline:
                     out = self.inline(target, args, dict(kwargs), st)
                     if out is not None:
@@ -1325,7 +1346,7 @@ class _Ev:
                         # generator construction: a pure term; the effect happens where it is spawned
                         return [(st, ast.Call(func=ast.Attribute(value=recv, attr=meth, ctx=ast.Load()), args=args,
                                               keywords=[ast.keyword(arg=k, value=v) for k, v in kwargs]), None)]
-                    if len(x.call_stack) < x.opts.inline_depth and target not in x.call_stack:
+                    if len(x.call_stack) < x.opts.inline_depth and target.normalized() not in x.call_stack:
                         out = self.inline(target, args, dict(kwargs), st)
                         if out is not None:
                             return out
@@ -1409,6 +1430,7 @@ class _Ev:
 
     def inline(self, target: FuncInfo, args, kwargs, st: State, receiver='self', as_expr=False):
         x = self.x
+        target = target.normalized()
         fn = target.node
         a = fn.args
         if a.vararg or a.kwarg:
